@@ -418,6 +418,8 @@ def oracle_edit_comments(in_doc, edits, res, raw_out, author=SESSION_AUTHOR):
                 it = "".join("".join(sem.run_chars(c2["run"])) for c2 in m["ch"] if c2["k"] == "r")
                 plain_new = e["new"].replace("*", "").replace("_", "").replace("#", "")
                 related |= (it.replace("_", "") in plain_new) if it else False
+                # an edit inside another reviewer's pending insertion re-inserts that insertion with the target replaced
+                related |= bool(it) and e.get("state") == "ins" and plain_new in it.replace("_", "")
         if not related:
             fails.append(f"comment {text!r} is anchored on changes that do not belong to its edit")
         # shown with the change in the raw view
@@ -515,6 +517,25 @@ def oracle_formatting(in_doc, edit, res, author=SESSION_AUTHOR):
             fails.append(f"new text {new!r} was inserted as {got_text!r}")
         elif edit["kind"] in ("multiline", "heading") and len(got_text) < min(len(c) for c in cands) - len(tgt):
             fails.append(f"part of the new text {new!r} is missing: inserted {got_text!r}")
+    # (3) every '# ' line of the new text is a heading-styled paragraph of its own
+    if edit["kind"] in ("multiline", "heading") or "\n" in new or new.startswith("#"):
+        for ln in re.split(r"[\r\n]+", new):
+            m = re.match(r"^(#+) (.*)$", ln)
+            if not m or not m.group(2).strip():
+                continue
+            want_style = f"Heading{len(m.group(1))}"
+            body = "".join(t for t, _, _ in render_spans(m.group(2).strip()))
+            hit = None
+            for p, i, n in ins:
+                t = "".join("".join(sem.run_chars(c["run"])) for c in n["ch"] if c["k"] == "r")
+                if t == body:
+                    hit = p
+                    break
+            if hit is None:
+                continue  # (text clause above reports a missing line)
+            if (hit.get("style") or "").replace(" ", "") != want_style:
+                fails.append(f"heading line {ln!r} of the new text became a paragraph with style {hit.get('style')!r}, "
+                             f"expected {want_style}")
     if edit["kind"] in ("replace", "literal", "markdown") and "\n" not in new and not new.startswith("#"):
         exp = [(t, b, i) for t, b, i in render_spans(new)]
         got = []
